@@ -162,16 +162,16 @@ def collectResults (dec : Oracle) (M : Bytes) : List Coding → Except Err (List
     | .error => collectResults dec M rest
     | .foreign => .error .foreign
 
-/-- returns the coding object of the `Message` (`none` = `coding_object=None` in non-strict mode) -/
-def decodeMessage (dec : Oracle) (strict : Bool) (s : Service) (M : Bytes) : Except Err (Option Coding) :=
+/-- returns the coding object of the `Message` -/
+def decodeMessage (dec : Oracle) (strict : Bool) (s : Service) (M : Bytes) : Except Err Coding :=
   let rp := requestPrefix s
   -- if len(raw_message) >= len(prefix) and prefix == raw_message[:len(prefix)]
   let codingObjects := (candidateCodings s).filter fun co => (codedConstPrefix rp co).isPrefixOf M
   match collectResults dec M codingObjects with
   | .error e => .error e
-  | .ok [] => .error .decode                                        -- raise DecodeError (unconditional since the c17 fix)
-  | .ok [co] => .ok (some co)
-  | .ok (co :: _ :: _) => if strict then .error .decode else .ok (some co)   -- odxraise("cannot uniquely decode"); return result_list[0]
+  | .ok [] => .error .decode            -- raise DecodeError("… cannot decode the message"), in both modes [fix 460d650]
+  | .ok [co] => .ok co
+  | .ok (co :: _ :: _) => if strict then .error .decode else .ok co   -- odxraise("cannot uniquely decode"); return result_list[0]
 
 /-! ### `DiagLayer._decode(message, candidate_services)` -/
 
@@ -189,7 +189,7 @@ def gnrResults (dec : Oracle) (rp : Bytes) (M : Bytes) : List Coding → Except 
     else gnrResults dec rp M rest
 
 /-- a reported `Message`: its service and its coding object -/
-abbrev Msg := Service × Option Coding
+abbrev Msg := Service × Coding
 
 /-- the `for service in candidate_services` loop -/
 def decodeLoop (dec : Oracle) (strict : Bool) (L : Layer) (M : Bytes) : List Service → Except Err (List Msg)
@@ -202,7 +202,7 @@ def decodeLoop (dec : Oracle) (strict : Bool) (L : Layer) (M : Bytes) : List Ser
       | .error e => .error e
       | .ok gs =>
         -- if not gnr_found: continue                               [fix c06-candidate-error-aborts-decode]
-        (decodeLoop dec strict L M rest).map (gs.map (fun g => (s, some g)) ++ ·)
+        (decodeLoop dec strict L M rest).map (gs.map (fun g => (s, g)) ++ ·)
     | .error .foreign => .error .foreign
 
 def decodeCandidates (dec : Oracle) (strict : Bool) (L : Layer) (M : Bytes) (cands : List Service) :
